@@ -97,9 +97,28 @@ macro_rules! body {
                 let untouched = v[0] == <$T>::ONE && v[len + 1] == <$T>::ONE;
                 let mut bytes = Vec::new(); for x in v[1..len + 1].iter() { bytes.extend(x.pat_to_le()); } (ok && untouched, bytes, r.served) },
         }
+        group_fn! { bigfills; args; { let total_bytes = args.usize(0); };
+            // a slice of >= total_bytes bytes filled from the counter-based stream; verified in the driver against the same stream
+            // (too large to ship to the monitor): (all elements equal the stream?, index of the first wrong element or len, bytes served, len)
+            "try_fill_slice_big" => {
+                let bytes = <$T as Pat>::PAT_BYTES;
+                let len = (total_bytes + bytes - 1) / bytes;
+                let mut v = vec![<$T>::ONE; len];
+                let mut r = Scripted::new(&[]);
+                let ok = bnum::random::try_fill_slice(&mut v[..], &mut r).is_ok();
+                let mut expect = Scripted::new(&[]);
+                let mut first_bad = len;
+                let mut buf = vec![0u8; bytes];
+                for (i, x) in v.iter().enumerate() {
+                    expect.fill_bytes(&mut buf);
+                    if x.pat_to_le() != buf { first_bad = i; break; }
+                }
+                (ok && first_bad == len, first_bad, (r.served, len))
+            },
+        }
         pub fn run(g: &str, args: &Args, out: &mut String) -> bool {
             match g { "range" => { ranges(args, out); true } "hist" => { hist(args, out); true } "std" => { stds(args, out); true }
-                      "fill" => { fills(args, out); true } _ => false }
+                      "fill" => { fills(args, out); true } "bigfill" => { bigfills(args, out); true } _ => false }
         }
     };
 }
